@@ -184,9 +184,16 @@ def worker(c):
         if mm is None:
             out = "rejected" if e is None else "rejected-with-error"
         else:
-            bad = model_refs.validate(mm)
-            if bad:
-                P.violation("accepted-image-with-out-of-range-reference:%s" % bad[0][0], {"model": name, "case": c, "fault": kind, "at": desc, "bad": bad[:5]})
+            neg = [k for k, v in mm.sizes().items() if v < 0]
+            bad = model_refs.validate(mm) if not neg else []
+            if neg:
+                P.violation("accepted-image-with-negative-size:%s" % neg[0], {"model": name, "case": c, "fault": kind, "at": desc, "sizes": neg[:5]})
+                out = "accepted-negative-size"
+            elif bad:
+                arr, idx, val, hi = bad[0]
+                lo = model_refs.SIMPLE.get(arr, (None, None, 0))[2]
+                cls = "minus-one-where-no-none-value" if (val == -1 and lo == 0) else ("below-range" if val < 0 else "beyond-range")
+                P.violation("accepted-image-with-out-of-range-reference:%s:%s" % (cls, arr), {"model": name, "case": c, "fault": kind, "at": desc, "bad": bad[:5]})
                 out = "accepted-bad-reference"
             else:
                 out = "accepted-references-in-bounds"
@@ -259,7 +266,7 @@ def run(ctx):
     base = dict(every_below=ctx.pick(24000, 60000), ntrunc=ctx.pick(300, 3000), nhdr=ctx.pick(120, 2000), nidx=ctx.pick(2, 8), nrandom=ctx.pick(40, 400))
     for i in range(ctx.pick(14, 160)):
         cs.append(dict(base, kind="gen", profile=["rich", "contact", "smooth"][i % 3], mseed=int(rng.integers(0, 2 ** 31)), seed=int(rng.integers(0, 2 ** 31))))
-    corp = [c for c in corpus.loadable() if c["nv"] < 200]
+    corp = [c for c in corpus.loadable() if c["nv"] < 200 and c["nmesh"] == 0 and c["nflex"] == 0 and c["ngeom"] < 60]
     idx = rng.permutation(len(corp))
     for i in idx[: ctx.pick(14, len(corp))]:
         cs.append(dict(base, kind="corpus", path=corp[int(i)]["path"], seed=int(rng.integers(0, 2 ** 31))))
@@ -269,10 +276,21 @@ def run(ctx):
     for c, r in list(zip(cs, res)) + list(zip(acs, ares)):
         if r is None:
             ctx.inconclusive("worker returned nothing")
+        elif "crash" in r and r.get("rc") == "timeout":
+            ctx.count("worker_watchdog_timeouts")
+            ctx.inconclusive("wall-clock watchdog fired for %s" % {k: c[k] for k in c if k in ("kind", "path", "mseed", "flavour")})
         elif "crash" in r:
+            from .. import nat
+            body = "\n".join(l for l in r["crash"].splitlines() if not l.startswith("C31-AT"))
+            reps = nat.san_reports(nat.symbolize_offline(body[-12000:])) if nat.SAN_RE.search(body) else []
             at = [l for l in r["crash"].splitlines() if l.startswith("C31-AT")]
+            if reps:
+                ctx.violation("sanitizer-report-on-mutated-image:%s:%s" % (at[-1].split(" ")[2] if at else "unknown", reps[0][1]),
+                              {"case": c, "at": at[-1] if at else None, "report": reps[0][2][:3000]})
+                continue
             ctx.violation("crash-or-sanitizer-report-loading-or-using-mutated-image:" + (at[-1].split(" ")[2] if at else "unknown"),
-                          {"case": c, "rc": r.get("rc"), "at": at[-1] if at else None, "stderr": r["crash"][-2500:]})
+                          {"case": c, "rc": r.get("rc"), "at": at[-1] if at else None,
+                           "stderr": "\n".join([l for l in r["crash"].splitlines() if not l.startswith("C31-AT")][-40:])})
         elif "exception" in r:
             ctx.inconclusive("harness exception: " + r["exception"] + r.get("trace", "")[-500:])
         else:
